@@ -179,8 +179,12 @@ func TestC10(t *testing.T) {
 	if !r.Quick() {
 		bound = 2
 	}
-	readers := [][]string{{"GetAll"}, {"Get(a)"}, {"GetByIndex(CREATION)"}, {"GetByIndex(KEY)"}, {"Stream(filter)"}, {"Count"}}
-	writers := [][]string{{"Set(c)"}, {"Set(a,v2)"}, {"Delete(a)"}, {"Shift(a)"}, {"Inc(b)"}}
+	readers := [][]string{{"GetAll"}, {"Get(a)"}, {"GetByIndex(CREATION)"}, {"Stream(filter)"}}
+	writers := [][]string{{"Set(c)"}, {"Set(a,v2)"}, {"Delete(a)"}, {"Shift(a)"}}
+	if !r.Quick() {
+		readers = append(readers, []string{"GetByIndex(KEY)"}, []string{"Count"})
+		writers = append(writers, []string{"Inc(b)"})
+	}
 	var progs []c10prog
 	for _, rd := range readers {
 		for _, wr := range writers {
@@ -195,7 +199,7 @@ func TestC10(t *testing.T) {
 	r.Extra["race_detector"] = raceEnabled
 	r.Extra["programs"] = len(progs)
 	r.Extra["preemption_bound"] = bound
-	r.Rule = fmt.Sprintf("harness built with -race; %d programs = reader in {GetAll, Get(a), GetByIndex CREATION_TIME (cold index build), GetByIndex KEY, GetByIndexStream with a value filter, Count} x writer in {Set of a new key, Set(a) writing value and UpdatedBy together, Delete(a), ShiftByKeys([a]), IncrementInt32(b)} plus two writer/writer pairs, on an in-memory swamp holding a,b,z; every schedule with at most %d preemptions at the scheduling points of the beacon, treasure, guard, swamp and gateway code; the scheduler's hand-off is invisible to the race detector, so for each schedule the detector sees exactly the synchronisation the code performs. Oracle per execution: no new data-race report whose two accesses lie in hydraide code; no request without a response (recovered panic); the worker process survives; every read of key a returns (value, UpdatedBy) of one version. Non-trivial = executions with at least one preemption", len(progs), bound)
+	r.Rule = fmt.Sprintf("harness built with -race; %d programs = reader in {GetAll, Get(a), GetByIndex CREATION_TIME (cold index build), GetByIndexStream with a value filter; thorough: also GetByIndex KEY, Count} x writer in {Set of a new key, Set(a) writing value and UpdatedBy together, Delete(a), ShiftByKeys([a]); thorough: also IncrementInt32(b)} plus two writer/writer pairs, on an in-memory swamp holding a,b,z; every schedule with at most %d preemptions at the scheduling points of the beacon, treasure, guard, swamp and gateway code; the scheduler's hand-off is invisible to the race detector, so for each schedule the detector sees exactly the synchronisation the code performs. Oracle per execution: no new data-race report whose two accesses lie in hydraide code; no request without a response (recovered panic); the worker process survives; every read of key a returns (value, UpdatedBy) of one version. Non-trivial = executions with at least one preemption", len(progs), bound)
 	r.Assumptions = []string{"the race detector's verdict is per execution (happens-before analysis of that schedule); its shadow memory keeps four accesses per word, the programs are tiny", "reports whose innermost non-shim frames are both outside hydraide are ignored (harness, in-memory file system)"}
 	if !raceEnabled {
 		r.NotExhaustive("the binary was built without -race: only the panic / torn-read oracles ran")
